@@ -343,7 +343,12 @@ fn judge(m: &Model, sheets: usize, with_name: bool, inputs: &[(Pos, String)], sy
         let any_opaque = opaque.contains(p) || reach_all.iter().any(|q| opaque.contains(q));
         if on_cycle_strict && v != circ && !any_opaque {
             // another error reachable from here may legitimately pre-empt the cycle: unspecified
-            let other_error = reach_all.iter().chain(std::iter::once(p)).any(|q| matches!(values.get(q), Some(Val::Err(e)) if *e != Error::CIRC));
+            // (an error source is a cell off every unconditional cycle: the content alphabet has no formula that both
+            // sits on a cycle and produces an error of its own, so an error shown by a cycle member comes from elsewhere or is wrong)
+            let other_error = reach_all
+                .iter()
+                .filter(|q| !reachable(**q, &g_strict).contains(*q))
+                .any(|q| matches!(values.get(q), Some(Val::Err(e)) if *e != Error::CIRC));
             if !other_error {
                 out.ds.push((
                     format!("cell on a reference cycle does not show #CIRC!: formula=`{}` shows={}", sym(*p), v.kind()),
